@@ -274,6 +274,27 @@ func vdrCase(c *Ctx, focus string) {
 		}
 	}
 	// (iii)+(iv) kill reports
+	// Every report covers its own directory minus the sub-directories which have a
+	// report of their own (the fork of a nested map call over an empty collection
+	// keeps its metadata in the node directory itself, next to its sibling forks).
+	var reportDirs []string
+	filepath.Walk(r.PsDir, func(p string, info os.FileInfo, err error) error {
+		if err == nil && info != nil && !info.IsDir() && info.Name() == "_vdrkill" {
+			reportDirs = append(reportDirs, "ps/"+strings.TrimPrefix(path.Dir(p), r.PsDir+"/"))
+		}
+		return nil
+	})
+	ownedBy := func(rel, dir string) bool {
+		if !strings.HasPrefix(rel, dir+"/") {
+			return false
+		}
+		for _, d := range reportDirs {
+			if len(d) > len(dir) && strings.HasPrefix(d, dir+"/") && strings.HasPrefix(rel, d+"/") {
+				return false
+			}
+		}
+		return true
+	}
 	filepath.Walk(r.PsDir, func(p string, info os.FileInfo, err error) error {
 		if err != nil || info == nil || info.IsDir() || info.Name() != "_vdrkill" {
 			return nil
@@ -319,7 +340,7 @@ func vdrCase(c *Ctx, focus string) {
 			var vdrFiles uint
 			for fp, rec := range r.Files {
 				frel := "ps/" + strings.TrimPrefix(fp, r.PsDir+"/")
-				if !strings.HasPrefix(frel, forkDir+"/") || exists(fp) {
+				if !ownedBy(frel, forkDir) || exists(fp) {
 					continue
 				}
 				// a file written below a symlinked directory can be removed under
@@ -369,7 +390,7 @@ func vdrCase(c *Ctx, focus string) {
 			var rmBytes, linkBytes int64
 			for _, ev := range vos.W.Events {
 				if ev.Site == "storage.go" && ev.Err == "" && (ev.Op == "removeall" || ev.Op == "remove") &&
-					strings.HasPrefix(ev.Path, forkDir+"/") {
+					ownedBy(ev.Path, forkDir) {
 					rmEntries += ev.RmFiles + ev.RmDirs
 					rmBytes += ev.RmFileBytes + ev.RmDirBytes
 					linkEntries += ev.RmLinkEntries
